@@ -162,12 +162,81 @@ pub fn drain_stdout() -> Vec<String> {
     }
 }
 
+// stderr capture: only while the code under test runs (fd 2 is swapped for a second memfd around each
+// execution and put back afterwards, so the harness's own diagnostics and those of child processes are
+// not affected). Whatever the library writes there is an externally visible effect that no property
+// allows; it is reported as a log line with the prefix "STDERR: ".
+static ERR_DEPTH: std::sync::atomic::AtomicUsize = std::sync::atomic::AtomicUsize::new(0);
+static ERR_FDS: std::sync::atomic::AtomicI64 = std::sync::atomic::AtomicI64::new(-1);
+
+fn err_fds() -> (i32, i32) {
+    use std::sync::atomic::Ordering::SeqCst;
+    let v = ERR_FDS.load(SeqCst);
+    if v >= 0 {
+        return ((v >> 32) as i32, (v & 0xffff_ffff) as i32);
+    }
+    unsafe {
+        let orig = libc::dup(2);
+        let name = b"jlmc-err\0";
+        let mem = libc::memfd_create(name.as_ptr() as *const libc::c_char, 0);
+        assert!(orig >= 0 && mem >= 0, "stderr capture set-up failed");
+        let packed = ((orig as i64) << 32) | mem as i64;
+        match ERR_FDS.compare_exchange(-1, packed, SeqCst, SeqCst) {
+            Ok(_) => (orig, mem),
+            Err(w) => {
+                libc::close(orig);
+                libc::close(mem);
+                ((w >> 32) as i32, (w & 0xffff_ffff) as i32)
+            }
+        }
+    }
+}
+
+fn stderr_enter() {
+    use std::sync::atomic::Ordering::SeqCst;
+    unsafe {
+        if !CAPTURE_ON {
+            return;
+        }
+        let (_, mem) = err_fds();
+        if ERR_DEPTH.fetch_add(1, SeqCst) == 0 {
+            libc::dup2(mem, 2);
+        }
+    }
+}
+
+fn stderr_leave() -> Vec<String> {
+    use std::sync::atomic::Ordering::SeqCst;
+    unsafe {
+        if !CAPTURE_ON {
+            return Vec::new();
+        }
+        let (orig, mem) = err_fds();
+        if ERR_DEPTH.fetch_sub(1, SeqCst) != 1 {
+            return Vec::new();
+        }
+        libc::dup2(orig, 2);
+        let pos = libc::lseek(mem, 0, libc::SEEK_CUR);
+        if pos <= 0 {
+            return Vec::new();
+        }
+        let mut buf = vec![0u8; pos as usize];
+        let n = libc::pread(mem, buf.as_mut_ptr() as *mut libc::c_void, buf.len(), 0);
+        libc::ftruncate(mem, 0);
+        libc::lseek(mem, 0, libc::SEEK_SET);
+        let text = String::from_utf8_lossy(&buf[..n.max(0) as usize]).into_owned();
+        text.lines().map(|l| format!("STDERR: {}", l)).collect()
+    }
+}
+
 fn run<F: FnOnce() -> Outcome>(f: F) -> Obs {
+    stderr_enter();
     let r = panic::catch_unwind(AssertUnwindSafe(f));
     // make sure buffered output (if any) reaches the fd before we look
     use std::io::Write;
     let _ = std::io::stdout().flush();
-    let log = drain_stdout();
+    let mut log = drain_stdout();
+    log.extend(stderr_leave());
     let out = match r {
         Ok(o) => o,
         Err(_) => {
